@@ -172,7 +172,11 @@ def oracle_check_nodes(run: Run, dumps):
 def run_modules(run: Run, modules, n_random):
     """Dump, generate, compile.  -> (dumps, per-module results)"""
     t0 = time.time()
+    D.SHARED_FAILS.clear()
     dumps = [D.dump_module(lab, mod, dom, ver, run.rng, n_random) for lab, mod, dom, ver in modules]
+    for sf in D.SHARED_FAILS[:40]:
+        run.fail("impl", f"C11/{sf['module'].replace('spox.opset.', '')}/{sf['operator']}/emission/inputs-shared-var",
+                 f"{sf['operator']}: with one Var passed to several slots the emitted inputs {sf['emitted_inputs']} differ from the prescribed {sf['prescribed_inputs']}", sf)
     t_dump = time.time() - t0
     sc = run.scratch() / "gen"
     sc.mkdir(parents=True, exist_ok=True)
